@@ -38,5 +38,9 @@ REGISTRY = {
     "C04": {"text": "Same specification and runs as C03 (spec/Package.tla): Topo_Trace judges that no non-public entity occurs in any stub file (NoLeak) and that the is_public flags "
                     "of the API JSON equal the spec's Public(entity) for classes, functions, methods, attributes, inner classes and enums.",
             "ref": "DESIGN.md section 7 C04", "note": BASE_NOTE, "technique": TECH},
+    "C10": {"text": "spec/Layout.tla derives the virtual files of every U1 scenario and of sets of foreign classes and models create_stub_files as write events (w / first-w-then-a); TLC checks "
+                    "no-clobber, create-before-append and stub/placeholder disjointness for every write order; real runs (absolute, relative, nested-missing output directories, naming conversion on/off, "
+                    "foreign classes) are recorded as write-event traces and C10_Trace judges Inside, Spells (directory = announced Python module), Base, NoClobber and the API file name.",
+            "ref": "DESIGN.md section 7 C10", "note": BASE_NOTE + " Write events are observed by wrapping pathlib.Path.open in the child process.", "technique": TECH},
 }
 NOT_APPLICABLE = {}
